@@ -17,6 +17,9 @@ inductive ScEv where
   | member (n : String)          -- struct Sq { int n; };      (member name space)
   | protoParam (n : String)      -- void gq(int n);            (prototype scope ends with the declarator)
   | probe (n : String) (form : Nat)
+  /-- `for (int n = 0;;) body` - the loop is a block of its own (6.8.5p5): `n` is gone after it.
+  `bodyIf`: the body is an `else`-less `if`, so the parser must look one token past the loop -/
+  | forObject (n : String) (bodyIf : Bool)
   deriving Repr, Inhabited, DecidableEq
 
 /-- ordinary-identifier scopes, innermost first: name ↦ is it a typedef name -/
@@ -46,6 +49,7 @@ def after : List ScEv → Scopes → Scopes
   | .member _ :: r, s => after r s
   | .protoParam _ :: r, s => after r s
   | .probe _ _ :: r, s => after r s
+  | .forObject _ _ :: r, s => after r s
 
 /-- is `n` a type name after the history? -/
 def isType (h : List ScEv) (n : String) : Bool := lookupS (after h [[]]) n
@@ -73,6 +77,8 @@ def evText (k : Nat) : ScEv → List String
   | .probe n 0 => [n, "*", "pq" ++ toString k, ";"]                 -- declaration iff n is a type
   | .probe n 1 => ["(", n, ")", "(", "xq", ")", ";"]                  -- cast iff n is a type
   | .probe n 2 => ["sizeof", "(", n, ")", ";"]                        -- type operand iff n is a type
+  | .forObject n false => ["for", "(", "int", n, "=", "0", ";", ";", ")", ";"]
+  | .forObject n true => ["for", "(", "int", n, "=", "0", ";", ";", ")", "if", "(", "cq", ")", "cq", ";"]
   | .probe n _ => [n, "(", "yq" ++ toString k, ")", ";"]              -- declaration iff n is a type
 
 /-- the class of AST node the probe statement must come back as -/
@@ -122,5 +128,40 @@ def histCaseP (fileEvs : List ScEv) (params : List (Option String)) (body : List
     else ((params.map fun p => match p with | some n => ["int", n] | none => ["int"]).intersperse [","]).flatten
   (" ".intercalate (pre ++ ["void", "f", "("] ++ ptoks ++ [")", "{"] ++ renderHist body 100 ++ ["}"]),
    " ".intercalate (expectedProbes [] all))
+
+/-! ## the open finding F-c04-forinit-leak, as a semantics of its own
+
+pycparser registers a for-init declaration in the *enclosing* block.  `leakyExpected` predicts what
+the parser then answers on a history (`none` = it rejects the program with a redeclaration error),
+so that a check can tell this known deviation from any other. -/
+
+def afterLeaky : List ScEv → Scopes → Option Scopes
+  | [], s => some s
+  | .openBlock :: r, s => afterLeaky r ([] :: s)
+  | .closeBlock :: r, s => afterLeaky r (s.drop 1)
+  | .typedefName n :: r, s => if redeclConflict s n true then none else afterLeaky r (declare s n true)
+  | .object n :: r, s => if redeclConflict s n false then none else afterLeaky r (declare s n false)
+  | .func n :: r, s => if redeclConflict s n false then none else afterLeaky r (declare s n false)
+  | .forObject n _ :: r, s => if redeclConflict s n false then none else afterLeaky r (declare s n false)
+  | _ :: r, s => afterLeaky r s
+
+def leakyProbes : List ScEv → List ScEv → Option (List String)
+  | _, [] => some []
+  | pre, .probe n f :: r =>
+    match afterLeaky pre [[]], leakyProbes (pre ++ [.probe n f]) r with
+    | some sc, some rest => some (probeClass (lookupS sc n) f :: rest)
+    | _, _ => none
+  | pre, e :: r =>
+    match afterLeaky (pre ++ [e]) [[]] with
+    | none => none
+    | some _ => leakyProbes (pre ++ [e]) r
+
+/-- `correct ||| leaky` expectations for a history with for-init declarations -/
+def histCaseLeaky (fileEvs : List ScEv) (body : List ScEv) : String × String :=
+  let pre := renderHist fileEvs 0
+  let all := fileEvs ++ [.openBlock] ++ body
+  (" ".intercalate (pre ++ ["void", "f", "(", "void", ")", "{"] ++ renderHist body 100 ++ ["}"]),
+   " ".intercalate (expectedProbes [] all) ++ "|||" ++
+     (match leakyProbes [] all with | some l => " ".intercalate l | none => "REJECTED"))
 
 end PycModel.Spec
